@@ -33,7 +33,7 @@ def run(tier, seed):
             if clause not in first:
                 first[clause] = info
 
-        for L in (1, 2, 3, 5):
+        for L in (1, 2, 3, 5, 8):
             vs = M.vectors(rng, np, dom, L, 30 if thorough else 8)
             pairs = [(rng.choice(vs), rng.choice(vs)) for _ in range(200 if thorough else 50)]
             if dom != "simplex":
